@@ -7,8 +7,8 @@ ALL = [f"C{i:02d}" for i in range(1, 18)]
 
 # id -> (level category, engine, technique, level text, level note, design ref)
 CHECKS = {
-    "C01": ("exploration", "R+N", "deterministic simulation: seeded schedules of the real pub/sub router against scripted peers, fan-out reference model",
-            "Seeded search over back-pressure / registration / stream-end schedules of the production pub/sub router (real Topic::poll, FanoutMany, StreamMap, mpsc channel) against a one-vector reference model of the accept order; every subscriber's hand-over sequence must be one contiguous, duplicate-free run of it and be fully flushed at quiescence. Sampling, not proof.",
+    "C01": ("exploration", "R+N", "deterministic simulation: seeded schedules of the real pub/sub router against scripted peers (fan-out reference model), plus concurrent topics with similar names through the whole simulated stack",
+            "Seeded search over back-pressure / registration / stream-end schedules of the production pub/sub router (real Topic::poll, FanoutMany, StreamMap, mpsc channel) against a one-vector reference model of the accept order; every healthy subscriber's hand-over sequence must be one contiguous, duplicate-free run of it and be fully flushed at quiescence, also while other subscribers fail. N part: 2-3 topics whose names share a namespace or topic component carry traffic concurrently over the real client/server/QUIC stack; every subscriber must receive exactly its own topic's messages in each publisher's order. Sampling, not proof.",
             "Trusts the mock sink as a model of FramedWrite<SendStream>; bounds: <=3 publishers, <=4 subscribers, <=40 messages per run.",
             "DESIGN.md §5 C01"),
     "C02": ("exploration", "R", "deterministic simulation: seeded schedules of the real request/reply router against scripted requestors and a scripted replier, routing reference model",
@@ -45,7 +45,7 @@ CHECKS = {
             "DESIGN.md §5 C09"),
     "C10": ("exploration", "R", "deterministic simulation: seeded replier bind/reject/rebind histories against the real request/reply router",
             "Histories of 1-5 replier registrations and departures interleaved with traffic and back-pressure (also on rejected repliers' sinks): requests never alternate between repliers, a rejected replier gets exactly one REPLIER_ALREADY_BOUND frame, flushed, then close, and never a request; a replier registering with no live rival is bound and served.",
-            "A departed/failed replier counts as gone once the router has had a parked poll since; N-engine smoke for the client side is not built yet.",
+            "A departed/failed replier counts as gone once the router has had a parked poll since; N smoke (shutdown-live family): a second library replier on a bound topic must surface the bind error and a new one must bind and serve once the first is gone.",
             "DESIGN.md §5 C10"),
     "C11": ("exploration", "R+N", "deterministic simulation: seeded hostile frame sequences fed to the real request/reply router",
             "Requestors and repliers additionally send every other frame kind mid-stream (Ok, BatchMessage, Error, Register*, frame-limit requests); the router must not panic or spin and every non-hostile peer's traffic must still satisfy the C02 model. N part: raw peers open streams on the real server with every kind of first frame, on fresh topics and on topics already used in either pattern (role/kind mismatch), send every frame kind after a valid registration including requests that exceed the frame limit only after the routing tag is added; every stream told Ok gets a role probe (served, or refused with an error frame; never abandoned), every registration must be answered, and library clients must still complete round trips on the same and on other topics.",
@@ -53,7 +53,7 @@ CHECKS = {
             "DESIGN.md §5 C11"),
     "C12": ("fault_enumeration", "N", "deterministic simulation with fault injection: connection close hook, partitions held for an exact number of failed attempts, server restarts, repeated beyond the retry budget",
             "A victim stream of each kind (publisher, subscriber, requestor, replier; real library code) carries continuous traffic with a helper counterpart while outages are injected: the H1 close hook, a partition that the harness heals exactly when attempt k+1 is announced (k = 0..max_attempts+1), a server restart (nothing survives). Attempts must be numbered from 1 after every loss the client reports; an outage within the budget must end in a stable recovery after which newly started traffic is delivered/answered; an outage that exhausts the budget must surface as too-many-retries instead of hanging; more outages than max_attempts are survived when each stays within the budget.",
-            "Traffic during an outage is not owed; the replier is granted one spare attempt (stale binding on the server), restarts are judged only with >= 3 attempts; the unrecoverable-error clause (non-bind error code on re-registration) is not exercised yet.",
+            "Traffic during an outage is not owed; the replier is granted one spare attempt (stale binding on the server), restarts are judged only with >= 3 attempts; the unrecoverable-error clause is exercised by replacing the server with an impostor that refuses re-registrations with a non-bind error code (must be reported after one attempt).",
             "DESIGN.md §5 C12"),
     "C13": ("exploration", "N", "deterministic simulation: reconnect attempt times measured on the virtual clock during a partition held for the whole schedule",
             "The backoff iterator is pure; what a user relies on is when the retries happen. A library stream with a generated strategy (constant / linear / exponential with factors 0..u64::MAX, steps 0..10^9 s, 0-300 attempts, optional cap) is partitioned for its whole schedule; every reconnect_attempt event and the exhaustion report are timestamped on the virtual clock and compared with the law computed in u128 with saturation; numbering 1..max, exact count, clamp to the cap, no panic of the reconnecting task (overflow panics surface with their source location).",
@@ -69,7 +69,7 @@ CHECKS = {
             "DESIGN.md §5 C15"),
     "C16": ("exploration", "R", "deterministic simulation: registration channel closed at a seeded step of pub/sub and request/reply router schedules",
             "The sender returned by Topic::pair() is closed or dropped at an arbitrary step (idle, item buffered, flush pending, one side only, rejection in progress); once every sink accepts data the router future must complete within the poll budget and (pub/sub) every accepted item must be handed over and flushed first.",
-            "close_channel on the pair() sender is what Server::shutdown does; N-engine smoke of Server::verif_shutdown not built yet.",
+            "close_channel on the pair() sender is what Server::shutdown does; the N smoke (shutdown-live) runs Server::shutdown itself (H4 hook) under live pub/sub and request/reply traffic and demands that it returns within 30 virtual seconds.",
             "DESIGN.md §5 C16"),
     "C17": ("exploration", "N", "deterministic simulation with fault injection: stalled reader and over-full registration queue on one topic, liveness probe on another, over the simulated network",
             "A raw subscriber with shrunken receive windows stops reading on topic A (server send window shrunk so the router blocks after kilobytes); up to 200 further registrations from several raw connections queue on A, before and after the stall, in particular more than the 100+1 the registration queue holds; then two fresh library clients must connect, open a subscriber and a publisher on topic B and exchange a message within 10 virtual seconds.",
